@@ -19,7 +19,7 @@ from dsim.standin.simfs import FS, Crash
 PATHS = ["f0.nc", "f1.nc", "f2.nc"]   # relative: every process runs in its own private scratch directory
 VARNAMES = ["va", "vb", "vc", "vd", "ve"]
 DIMS = ["x", "y", "z", "t"]
-META = ["units", "long_name", "scale", "tag", "note"]
+META = ["units", "long_name", "scale", "tag", "note", "calendar"]
 
 
 def file_cfg(rng, tier, prop):
@@ -45,7 +45,7 @@ def gen_meta(rng, density):
     for nm in META:
         if rng.random() < density * 0.5:
             k = rng.randint(0, 3)
-            out[nm] = [rng.choice(["m", "kg", "none"]), rng.randint(-3, 40), rng.choice([0.5, 1.25, -2.0]),
+            out[nm] = [rng.choice(["m", "kg", "none", "1850", "2.0", "true", "[1]"]), rng.randint(-3, 40), rng.choice([0.5, 1.25, -2.0, 0.0]),
                        [rng.randint(0, 9) for _ in range(rng.randint(2, 3))]][k]
     return out
 
